@@ -265,7 +265,7 @@ func cmdCheck(args []string) int {
 			toSolve = append(toSolve, o)
 		}
 	}
-	solveAll(toSolve, work, *timeout, *tier == "thorough", 16)
+	solveAll(toSolve, work, *timeout, *tier == "thorough", numWorkers())
 
 	discharged, total, covers := 0, 0, 0
 	bySolver := map[string]int{}
